@@ -385,13 +385,10 @@ theorem dataclass_receive_first_decodes_as_base_witness :
     Dc.lookupNames parent (Dc.run all parent 3 [.inst 0]) 3 1 = ["x", "y"] := by
   decide
 
-/-- FULL statement wanted: `∀ k, Dc.decodedContainer k = k` (a sequence field comes back in its annotated container).
-    FALSE for the code (known finding `DataClassPayload:tuple-set-field-decodes-as-list`): witness -/
-theorem dataclass_container_witness :
-    Dc.decodedContainer .tuple ≠ .tuple ∧ Dc.decodedContainer .set ≠ .set := by decide
-
-/-- partial: fields annotated `list[...]` keep their container type -/
-theorem dataclass_container_roundtrip_partial : Dc.decodedContainer .list = .list := rfl
+/-- a sequence field comes back in its annotated container (list, tuple or set); was FALSE before a531c88
+    (fixed finding `DataClassPayload:tuple-set-field-decodes-as-list`), now the full statement -/
+theorem dataclass_container_roundtrip (k : Dc.Container) : Dc.decodedContainer k = k := by
+  cases k <;> rfl
 
 /-- `payload_dataclass.type_map` (evaluated on the live module for the 12 probed annotations bool, int, float, bytes, str,
     list[bool|int|float], tuple[int|bool|float], set[int]) is the frozen one and only names registered formats -/
